@@ -29,6 +29,8 @@ KEYWORDS = [
     "template_cache",
     "media_cache",
     ".resolved",
+    "comp_media",
+    "_component_media",
     "render_state",
     "post_render_callbacks",
     "on_component_rendered_callbacks",
